@@ -7,7 +7,8 @@
 (*      operation and its outcome: "Commission" (ok), "Pase", "Read" (a    *)
 (*      request over its operational session; fresh = FALSE: only over the *)
 (*      session it already holds), "Cmd" (cmd = arm / arm0 / csr / root /  *)
-(*      noc / complete / remove / label over its PASE or CASE session),    *)
+(*      noc / csru / unoc (CSRRequest for update, UpdateNOC) / complete /  *)
+(*      remove / label over its PASE or CASE session),                     *)
 (*      "Wait", "Restart" (power cut and start-up from the store),         *)
 (*      "FactoryReset" (Matter::factory_reset, then a restart),            *)
 (*      "CorruptResum"                                                     *)
@@ -32,7 +33,8 @@ Fresh == [fabs |-> {}, sess |-> {}, fsArmed |-> FALSE, fsFlags |-> 0,
           gone |-> {},                   \* indices of the fabrics removed by RemoveFabric while the fail-safe is armed (C08)
           booted |-> TRUE]
 
-Cfg(fabs) == {[idx |-> f.idx, own |-> f.own, label |-> f.label] : f \in fabs}
+\* (noc: fingerprint of the fabric's operational certificate - UpdateNOC replaces it under the fail-safe)
+Cfg(fabs) == {[idx |-> f.idx, own |-> f.own, label |-> f.label, noc |-> f.noc] : f \in fabs}
 Bit(flags, b) == (flags \div b) % 2 = 1
 
 (* ------------------------------------------------------------------ Op *)
@@ -41,9 +43,14 @@ SameCtx(s, c, via) == s.ctx.armed /\ s.ctx.c = c /\ (s.ctx.via = via \/ (s.ctx.n
 Expect(s, c, via, cmd) ==
   CASE cmd = "arm"  -> ~s.ctx.armed \/ SameCtx(s, c, via)
     [] cmd = "arm0" -> ~s.ctx.armed \/ SameCtx(s, c, via)
-    [] cmd = "csr"  -> SameCtx(s, c, via) /\ "csr" \notin s.ctx.flags
+    [] cmd = "csr"  -> SameCtx(s, c, via) /\ {"csr", "csru"} \cap s.ctx.flags = {}
+    \* a key for UpdateNOC: one CSRRequest per context, of one kind; the update flavour only over an operational session
+    [] cmd = "csru" -> SameCtx(s, c, via) /\ via = "case" /\ {"csr", "csru"} \cap s.ctx.flags = {}
     [] cmd = "root" -> SameCtx(s, c, via) /\ "root" \notin s.ctx.flags
-    [] cmd = "noc"  -> SameCtx(s, c, via) /\ {"csr", "root"} \subseteq s.ctx.flags /\ "noc" \notin s.ctx.flags
+    [] cmd = "noc"  -> SameCtx(s, c, via) /\ {"csr", "root"} \subseteq s.ctx.flags /\ {"noc", "unoc"} \cap s.ctx.flags = {}
+                       /\ ~\E f \in s.fabs : f.own = c             \* (a fabric of this root and id is on the node already: FabricConflict, C19)
+    \* UpdateNOC: after its own kind of CSRRequest, once, never mixed with the commands that add a fabric
+    [] cmd = "unoc" -> SameCtx(s, c, via) /\ via = "case" /\ "csru" \in s.ctx.flags /\ {"csr", "root", "noc", "unoc"} \cap s.ctx.flags = {}
     [] cmd = "complete" -> SameCtx(s, c, via) /\ via = "case"
     [] OTHER -> TRUE
 \* C07: old credentials / old sessions never reach a fabric that is not theirs
@@ -62,6 +69,8 @@ Accepted(s, flags, armed) ==
   CASE o.cmd = "arm"  -> o.ok /\ o.code = "OK"
     [] o.cmd = "arm0" -> o.ok /\ o.code = "OK"
     [] o.cmd = "csr"  -> Bit(flags, 1) /\ ~Bit(s.fsFlags, 1)
+    [] o.cmd = "csru" -> Bit(flags, 2) /\ ~Bit(s.fsFlags, 2)
+    [] o.cmd = "unoc" -> Bit(flags, 16) /\ ~Bit(s.fsFlags, 16)
     [] o.cmd = "root" -> Bit(flags, 4) /\ ~Bit(s.fsFlags, 4)
     [] o.cmd = "noc"  -> Bit(flags, 8) /\ ~Bit(s.fsFlags, 8)
     [] o.cmd = "complete" -> o.ok /\ o.code = "OK"
@@ -73,7 +82,7 @@ NextCtx(s, fabs, armed) ==
   ELSE IF o.op = "Pase" /\ o.ok /\ ~s.ctx.armed THEN [armed |-> TRUE, c |-> o.c, via |-> "pase", flags |-> {}, noc |-> FALSE]
   ELSE IF o.op = "Commission" /\ ~s.ctx.armed THEN [armed |-> TRUE, c |-> o.c, via |-> "pase", flags |-> {"csr", "root", "noc"}, noc |-> TRUE]
   ELSE IF acc /\ o.cmd = "arm" /\ ~s.ctx.armed THEN [armed |-> TRUE, c |-> o.c, via |-> o.via, flags |-> {}, noc |-> FALSE]
-  ELSE IF acc /\ o.cmd \in {"csr", "root"} THEN [s.ctx EXCEPT !.flags = @ \cup {o.cmd}]
+  ELSE IF acc /\ o.cmd \in {"csr", "root", "csru", "unoc"} THEN [s.ctx EXCEPT !.flags = @ \cup {o.cmd}]
   ELSE IF acc /\ o.cmd = "noc" THEN [s.ctx EXCEPT !.flags = @ \cup {"noc"}, !.noc = TRUE]
   ELSE s.ctx
 
@@ -91,7 +100,7 @@ StateOk(fabrics, sessions, resum, fsArmed, fsFlags, imDead, s) ==
                           \/ o.op = "Cmd" /\ o.cmd = "noc" /\ o.c = f.own
   /\ Which = "C08" =>
        \* OrderAndOnce + SameContext: the device accepted the command iff the reference does
-       /\ (o.op = "Cmd" /\ o.cmd \in {"arm", "arm0", "csr", "root", "noc", "complete"} /\ o.ok /\ s.booted)
+       /\ (o.op = "Cmd" /\ o.cmd \in {"arm", "arm0", "csr", "csru", "root", "noc", "unoc", "complete"} /\ o.ok /\ s.booted)
             => (Accepted(s, fsFlags, fsArmed) <=> Expect(s, o.c, o.via, o.cmd))
        \* RollbackRestores: the fail-safe went idle without a commit: the fabrics are what they were when it was armed,
        \* less the ones an administrator removed in the meantime (a removal is final at once)
